@@ -849,7 +849,13 @@ class SyncObj(object):
             funcID, args, newKwArgs = command
             kwargs.update(newKwArgs)
 
-        return self._idToMethod[funcID](*args, **kwargs)
+        try:
+            return self._idToMethod[funcID](*args, **kwargs)
+        except Exception as e:
+            # The command is committed, every node executes it and fails in the same way.
+            # The log has to go on: the exception is handed over as the result of the command.
+            logger.exception('replicated method raised an exception')
+            return e
 
     def __onMessageReceived(self, node, message):
 
